@@ -653,3 +653,6 @@ B("b45", ["C05", "C03"], PI, "        new_values = new_values.reshape(-1)\n", " 
 B("b46", ["C02", "C03"], VI, "        return jnp.max(\n            jax.vmap(\n                self._calculate_updated_state_action_value,\n                in_axes=(None, 0, None, None, None),\n            )(state, actions, random_events, gamma, values)",
   "        q_of_action = jax.vmap(\n            self._calculate_updated_state_action_value,\n            in_axes=(None, 0, None, None, None),\n        )\n        return jnp.max(\n            q_of_action(state, actions, random_events, gamma, values)",
   "vmapped callable bound to a local before it is applied")
+M("m128", "C13", "R13.5", HENDRIX, "            pu[0, y] = scipy.stats.poisson.pmf(x + y, self.demand_poisson_mean_b).dot(\n                scipy.stats.binom.pmf(0, x, self.substitution_probability)\n            )",
+  "            pu[0, y] = scipy.stats.poisson.pmf(x + y, self.demand_poisson_mean_b).dot(\n                np.exp(x * np.log1p(-self.substitution_probability))\n            )",
+  "Binomial(0; x, p) written as exp(x * log1p(-p)): NaN at the accepted p = 1 with x = 0 (positive example of the zero-count rule)")
